@@ -123,7 +123,7 @@ func Execute(p *Prop, idx int, t *Tape, kf *KnownFindings, trace bool) (res RunR
 				return
 			}
 			class, msg := PanicClass(rec, string(buf[:n]))
-			v := Violation{Class: class, Msg: "panic: " + msg}
+			v := Violation{Class: class + r.ClassTag, Msg: "panic: " + msg}
 			r.Logf("VIOLATION %s: %s", v.Class, v.Msg)
 			if kf != nil && kf.Match(p.ID, v) != nil {
 				r.Known = append(r.Known, v)
